@@ -149,7 +149,9 @@ pub fn check(sc: &Scenario, out: &RunOutput) -> OracleResult {
                 };
                 if !hostile {
                     if let Some(i) = prf_mismatch(key, off, &p.payload) {
-                        res.violate(P, "wire-payload-differs-from-written", t, format!("seq {} (stream offset {}, {} bytes): byte {} on the wire is not what the application wrote at offset {} (ring capacity now {}, grew: {})", p.seq, off, len, i, off + i as u64, ring_cap, grew));
+                        // (diagnosis: where in the written stream do these bytes come from?)
+                        let from = (off.saturating_sub(70_000)..off + 70_000).find(|o| prf_mismatch(key, *o, &p.payload).is_none());
+                        res.violate(P, "wire-payload-differs-from-written", t, format!("seq {} (stream offset {}, {} bytes): byte {} on the wire is not what the application wrote at offset {} (ring capacity now {}, grew: {}; the packet's bytes are the stream's at offset {:?})", p.seq, off, len, i, off + i as u64, ring_cap, grew, from));
                     }
                 }
                 match sent.get_mut(&p.seq) {
